@@ -121,6 +121,8 @@ void uses(SU_vector& a, SU_vector& b, const double* buf, double t) {
   // operations between unevaluated expressions (and between an expression and a vector): members of EvaluationProxy<Op>
   double y = (a + b) * (a - b);
   (void)y;
+  double z = (a * 2.0) * (a * 3.0); // two expressions of one kind over one vector, with different parameters
+  (void)z;
   SU_vector p1((a + b) + (a - b));
   SU_vector p2((a + b) - (a - b));
   SU_vector p3((a + b).Evolve(a - b, t));
